@@ -4,6 +4,7 @@
 import Driver.Rules
 import Driver.Exhaust
 import Driver.Compose
+import Driver.Stats
 open Pabu Pabu.Driver
 
 def dispatch (line : String) : String :=
@@ -19,6 +20,7 @@ def dispatch (line : String) : String :=
     | "maxw" => cmdMaxw a
     | "exhaust" => cmdExhaust a
     | "compose" => cmdCompose a
+    | "stats" => cmdStats a
     | _ => "bad-op"
 
 partial def loop (h : IO.FS.Stream) (out : IO.FS.Stream) : IO Unit := do
